@@ -738,6 +738,9 @@ func (g *Gen) GenNode(depth int, root bool) *Node {
 			}
 			if g.p(g.Cfg.PZogTag, "zt") {
 				f.Tags = map[string]string{"zog": pick(g, []string{"zt_", "first-", "T"}, "ztp") + key}
+				if g.p(0.12, "ztc") {
+					f.Tags["zog"] += ",omitempty" // the whole tag value is the key (no encoding/json style options)
+				}
 			}
 			if !(g.Cfg.NoNestedSourceTags && g.sdepth > 0) {
 				for _, tk := range g.Cfg.TagKinds {
@@ -751,6 +754,9 @@ func (g *Gen) GenNode(depth int, root bool) *Node {
 							f.Tags[tk] = fmt.Sprintf("ZV_%s_%d", strings.ToUpper(key), g.envSeq)
 						default:
 							f.Tags[tk] = tk[:1] + "_" + key
+							if g.p(0.08, "stc") {
+								f.Tags[tk] += ",omitempty"
+							}
 							if (tk == "form" || tk == "query") && f.Node.Kind == KSlice && g.p(0.5, "brk") {
 								f.Tags[tk] += "[]" // zhttp: a []-suffixed parameter is always a list
 							}
